@@ -11,7 +11,7 @@ RULE = ("3-D arrays of pairwise different signals, shapes (n0, n1) in {1,2,3}^2 
         "compute_features_3d and BycycleGroup.fit; judge: entry [i][j] equals the analysis of signal [i, j] alone (axis (0,1)), epoch j of the flattened-epoch analysis of "
         "sigs[i] (axis 0), epoch i of the flattened-epoch analysis of sigs[:, j] (axis 1), each with the options of its slice; distinct = distinct configurations; "
         "non-trivial = n0 * n1 >= 2")
-ASSUMPTIONS = ["the flattened-epoch analysis of one 2-D slice (compute_features_2d(axis=None)) is taken from the implementation itself here; its own correctness is C13",
+ASSUMPTIONS = ["the flattened-epoch analysis of one 2-D slice is compute_features on the concatenated rows cut by the Lean epoch rule (as in C13), not compute_features_2d itself",
                "Pool.imap ordering contract (E6)"]
 BATCH = 6
 OPTS = [
@@ -117,7 +117,13 @@ def evaluate(ctx, cases):
                 if c['axis'] == 'a01':
                     cache[key] = [implutil.quiet(compute_features, flat[ids[0]], fs, fr, return_samples=c['rs'], **opts)]
                 else:
-                    cache[key] = implutil.quiet(compute_features_2d, flat[ids], fs, fr, compute_features_kwargs=(opts or None), axis=None, return_samples=c['rs'])
+                    # the flattened-epoch analysis of the slice, INDEPENDENTLY of compute_features_2d / epoch_df: compute_features on the
+                    # concatenated rows, cut into epochs by the Lean specification of the epoch rule (C13_epoch_rule) with its sample shift
+                    x = flat[ids].flatten(); L = flat.shape[1]
+                    o = dict(opts); cen = o.get('center_extrema', 'peak')
+                    dfl = implutil.quiet(compute_features, x, fs, fr, return_samples=True, **o)
+                    ep = proto.run_driver(['epoch.spec %s %d %d' % (implutil.epoch_rows_enc(dfl, cen), len(x), L)])[0]
+                    cache[key] = implutil.epoch_tables(dfl, cen, ep)      # (the flattened-epoch route keeps the sample columns whatever return_samples says)
             return cache[key][e]
         def check(pred):
             if err: return 'raised ' + err
